@@ -288,6 +288,22 @@ func init() {
 		ConformanceQuick: 48, ConformanceThorough: 400,
 	})
 	props = append(props, &PropDef{
+		ID: "C11", Title: "The emulated System's memory map is the LoROM map of the mapper package", Level: "model_checking",
+		Patterns: []string{"verif/harness/c11"},
+		Jobs: func(tier string) []sym.Job {
+			var js []sym.Job
+			for b := 0; b < 256; b++ {
+				js = append(js, job("c11", "Address", fmt.Sprintf("c11/address/bank%02x", b), int64(b)))
+			}
+			return js
+		},
+		Bounds:           []string{"one read and one write at every 24-bit bus address (256 jobs, one per bank, the 16-bit offset symbolic), with fully symbolic contents of the ROM (16 MiB), WRAM and SRAM arrays", "the real CreateEmulator is executed by the engine (concrete loops); the 2^20-entry segment table is then split into its runs of identical backends and the address is case-split over them (feasibility by solver)"},
+		Outside:          []string{"addresses the console backs with hardware registers or leaves unmapped, and addresses the mapper reports unmapped (the property speaks about addresses both sides consider memory)"},
+		Exhaustive:       true,
+		Explanation:      "which array (if any) a bus write reaches is observed extensionally (array != its symbolic original); class and cell index are compared with lorom.BusAddressToPak",
+		ConformanceQuick: 32, ConformanceThorough: 512,
+	})
+	props = append(props, &PropDef{
 		ID: "C12", Title: "Step accounts cycles faithfully and RunUntil always stops within its budget", Level: "model_checking",
 		Solver: "z3-new", Fallbacks: []string{"cvc5"}, TimeoutQuickMs: 20000,
 		Patterns: []string{"verif/harness/c12"},
@@ -430,6 +446,15 @@ func init() {
 		Exhaustive:       true,
 		Explanation:      "implementation arithmetic vs. spec/cartmap (declarative transcription of the library's documented region tables, DESIGN Appendix B) for an arbitrary 24-bit address",
 		ConformanceQuick: 40, ConformanceThorough: 600,
+	})
+	props = append(props, &PropDef{
+		ID: "C13", Title: "Bus routing follows Attach exactly and EaDump agrees with byte-wise reads", Level: "model_checking",
+		Patterns:         []string{"verif/harness/c13"},
+		Jobs:             c13Jobs,
+		Bounds:           []string{"up to three successful Attach calls with ranges drawn from 8 aligned ranges inside a 512-byte window (overlapping, adjacent, nested, re-attached, single-segment, with holes): all 9^3 layouts in the thorough tier, all 9^2 two-attach layouts plus a sample of three-attach ones in the quick tier", "routing: read and write address symbolic over the whole window; misaligned Attach: start and end fully symbolic 24-bit values", "EaDump: start anywhere in a chosen segment, end anywhere in a segment 0-3 (thorough 0-4) segments later (both low nibbles symbolic), every starting segment of the window that keeps the range inside it"},
+		Outside:          []string{"more than three Attach calls; windows other than $0F00-$10FF (the segment table is indexed uniformly; argued)", "dump ranges longer than 5 segments"},
+		Explanation:      "probe memories record every access (count, full address, value); the harness computes the owner of each 16-byte segment from the attach order and compares",
+		ConformanceQuick: 48, ConformanceThorough: 400,
 	})
 	props = append(props, &PropDef{
 		ID: "C15", Title: "Assembler listings reproduce exactly the bytes that were emitted", Level: "model_checking",
@@ -718,3 +743,41 @@ func c16Jobs(tier string) []sym.Job {
 	}
 	return js
 }
+
+func c13Jobs(tier string) []sym.Job {
+	var js []sym.Job
+	var layouts []int
+	for l := 0; l < 9*9*9; l++ {
+		third := l / 81
+		if tier == "thorough" || third == 0 || l%7 == 3 {
+			layouts = append(layouts, l)
+		}
+	}
+	for _, l := range layouts {
+		js = append(js, job("c13", "Route", fmt.Sprintf("c13/route/layout%03d", toBase9(l)), int64(l)))
+	}
+	for _, l := range []int{0, 1, 4, 1 + 9*3, 2 + 9*4 + 81*5} {
+		js = append(js, job("c13", "Misaligned", fmt.Sprintf("c13/misaligned/layout%03d", toBase9(l)), int64(l)))
+	}
+	dumpLayouts := []int{0, 1, 2, 3, 4, 5, 1 + 9*4, 2 + 9*3, 4 + 9*5, 2 + 9*3 + 81*8, 5 + 9*7 + 81*6}
+	maxSeg := 3
+	if tier == "thorough" {
+		maxSeg = 4
+		for l := 0; l < 81; l += 5 {
+			dumpLayouts = append(dumpLayouts, l+81*((l/5)%9))
+		}
+	}
+	for _, l := range dumpLayouts {
+		for nseg := 0; nseg <= maxSeg; nseg++ {
+			for seg0 := 6; seg0+nseg <= 25; seg0 += 1 {
+				if tier != "thorough" && seg0%3 != (l+nseg)%3 {
+					continue
+				}
+				js = append(js, job("c13", "Dump", fmt.Sprintf("c13/dump/layout%03d/seg%02d+%d", toBase9(l), seg0, nseg), int64(l), int64(seg0), int64(nseg)))
+			}
+		}
+	}
+	return js
+}
+
+func toBase9(l int) int { return l%9 + 10*(l/9%9) + 100*(l/81) }
